@@ -227,7 +227,7 @@ def getVersion (ts : List Template) (line : Str) : Option (Nat × Nat × Nat) :=
     that is not empty, empty lines and repeated lines are dropped (first occurrence kept, `np.unique` +
     sorted first indices), every remaining line goes through `parse_matchline` with the parser list of the
     version, lines no parser accepts are dropped.  `none` = no line at all, or `get_version` raises.
-    (`validate_match_ids`, which prunes deletions / insertions with repeated ids, is not part of it.) -/
+    (`validate_match_ids`, which prunes deletions / insertions with repeated ids: `loadFileV`.) -/
 def loadFile (ts : List Template) (cs : List Composite) (lines : List Str) :
     Option ((Nat × Nat × Nat) × List (String × List Val)) :=
   let nonEmpty := lines.filter (fun l => !l.isEmpty)
@@ -239,6 +239,49 @@ def loadFile (ts : List Template) (cs : List Composite) (lines : List Str) :
     | some v =>
       let order := if v.1 ≥ 1 then dispatchOrderV1 else dispatchOrderV0
       some (v, nonEmpty.eraseDups.filterMap (dispatch ts cs order v))
+
+-- ---------------------------------------------------------------- validate_match_ids
+
+/-- `isinstance(line, BaseDeletionLine)` / `BaseInsertionLine`, by line kind -/
+def isDeletionKind (k : String) : Bool := k == "deletion" || k == "trailing_score" || k == "no_played"
+def isInsertionKind (k : String) : Bool := k == "insertion" || k == "hammer_bounce" || k == "trailing_played"
+
+/-- `snote_classes` / `note_classes` among the kinds `parse_matchline` returns -/
+def hasSnote (k : String) : Bool := k == "snote_note" || isDeletionKind k
+def hasNote (k : String) : Bool := k == "snote_note" || isInsertionKind k || k == "trill" || k == "ornament"
+
+/-- `line.snote.Anchor` of a parsed line (the first score-note field) -/
+def scoreId (r : String × List Val) : Option Val := if hasSnote r.1 then r.2[0]? else none
+
+/-- `line.note.Id` of a parsed line; `nS` = number of score-note fields of the version -/
+def noteId (nS : Nat) (r : String × List Val) : Option Val :=
+  if r.1 == "snote_note" then r.2[nS]?
+  else if isInsertionKind r.1 then r.2[0]?
+  else if r.1 == "trill" then r.2[1]?
+  else if r.1 == "ornament" then r.2[2]?
+  else none
+
+def countOf (x : Val) (l : List Val) : Nat := (l.filter (· == x)).length
+
+/-- a deletion whose score id occurs in more than one line with a score note -/
+def dupDeletion (sids : List Val) (r : String × List Val) : Bool :=
+  isDeletionKind r.1 && (match scoreId r with | some a => decide (countOf a sids > 1) | none => false)
+
+/-- an insertion whose performed-note id occurs in more than one line with a performed note -/
+def dupInsertion (nS : Nat) (pids : List Val) (r : String × List Val) : Bool :=
+  isInsertionKind r.1 && (match noteId nS r with | some a => decide (countOf a pids > 1) | none => false)
+
+/-- `importmatch.validate_match_ids`: first the deletions with a repeated score id are removed, then - on the
+    remaining lines - the insertions with a repeated performed-note id -/
+def validateIds (nS : Nat) (recs : List (String × List Val)) : List (String × List Val) :=
+  let recs1 := recs.filter fun r => !dupDeletion (recs.filterMap scoreId) r
+  recs1.filter fun r => !dupInsertion nS (recs1.filterMap (noteId nS)) r
+
+/-- `load_matchfile` including `validate_match_ids` -/
+def loadFileV (ts : List Template) (cs : List Composite) (lines : List Str) :
+    Option ((Nat × Nat × Nat) × List (String × List Val)) :=
+  (loadFile ts cs lines).map fun r =>
+    (r.1, validateIds (((findTpl ts (verName r.1 ++ "/snote")).map (·.fields.length)).getD 0) r.2)
 
 -- ---------------------------------------------------------------- to_v1
 
